@@ -88,6 +88,7 @@ class RefReg:
     def __init__(self):
         self.t = {}        # (table, key, bit) -> fn
         self.before, self.after = [], []
+        self.order = []    # pattern routes in first-registration order (dispatch precedence)
 
     def apply(self, tok):
         p = tok.split(":")
@@ -96,9 +97,15 @@ class RefReg:
         if op in ("sr", "sx"):
             for b in bits(int(p[3])):
                 self.t[("route", p[1], b)] = int(p[2])
+            is_pattern = op == "sx" or __import__("re").search(r"<(\w+)(:[^>]+)?>", bytes.fromhex(p[1]).decode())
+            if is_pattern and p[1] not in self.order and bits(int(p[3])):
+                self.order.append(p[1])
             return "ok"
         if op in ("pr", "px"):
-            return self.pop(("route", p[1], int(p[2])))
+            r = self.pop(("route", p[1], int(p[2])))
+            if not any(k[0] == "route" and k[1] == p[1] for k in self.t) and p[1] in self.order:
+                self.order.remove(p[1])
+            return r
         if op in ("ir", "ix"):
             return "1" if any(k[0] == "route" and k[1] == p[1] for k in self.t) else "0"
         if op == "sd":
@@ -173,6 +180,13 @@ def oracle(case):
     for c, inner in app.errors.items():
         for b, f in inner.items():
             got[("se", str(RC.ECLS_ID[c]), b)] = f.verif_id
+    impl_order = []
+    for pat, inner in app.regular_routes.items():
+        rule = next(iter(inner.values()))[2] if inner else None
+        impl_order.append(hx(rule if rule is not None else pat.pattern))
+    if got == ref.t and impl_order != ref.order:
+        return [Violation("c19-order", case, "pattern routes are consulted in the order %r, registration order is %r"
+                          % (impl_order, ref.order))]
     if got != ref.t:
         extra = sorted(set(got.items()) ^ set(ref.t.items()))[:4]
         return [Violation("c19-views", case, "views differ from registrations minus removals: %r" % (extra,))]
